@@ -61,7 +61,7 @@ func NewFileNode(path string, digest Digest) (FileNode, error) {
 //
 // This reverses FileNode.String().
 func ParseFileNode(s string) (FileNode, error) {
-	split := strings.Split(s, "  ")
+	split := strings.SplitN(s, "  ", 2)
 	if len(split) != 2 {
 		return nil, bufparse.NewParseError(
 			"file node",
